@@ -155,6 +155,10 @@ def sym(ctx, cfg):
         psms = D.LinearPsmDataset(df, target_column="Label", spectrum_columns="spec", peptide_column="pep", feature_columns=list(FEATS), copy_data=True)
         model = M.Model(Est(7), scaler=TagScaler() if cfg.get("scaler") else "as-is", train_fdr=SNum(fdr), max_iter=iters, direction=cfg.get("direction"), shuffle=shuffle, rng=gen, override=True)
         model.fit(psms)
+        if cfg.get("refit"):
+            # fitting an already trained model again: the starting labels come from the model's own scores
+            # (the `direction` argument is documented to be ignored then)
+            model.fit(psms)
         # prediction on a dataset whose feature columns come in another order
         df2 = sympd.DataFrame({"f": [SNum(z) for z in zf], "spec": list(range(n)), "Label": [SBool(z) for z in zt], "pep": ["PEP%d" % i for i in range(n)],
                                "rowid": list(range(n))})
@@ -238,7 +242,7 @@ def sym(ctx, cfg):
         return PathOutcome([], inputs, None, "exc", note=type(ex).__name__ + ":" + str(ex)[:80])
     finally:
         Q.__dict__["tdc"] = real_tdc
-    props = _fit_props(_REC[7], n, zt, zf, fdr, cfg, iters, pred, True)
+    props = _fit_props(_REC[7], n, zt, zf, fdr, cfg, iters * (2 if cfg.get("refit") else 1), pred, True)
     if cfg.get("roundtrip"):
         props.append(("reloaded_model_predicts_for_every_psm", z3.BoolVal(pred2 is not None and len(pred2) == len(pred))))
         if pred2 is not None and len(pred2) == len(pred):
@@ -330,6 +334,13 @@ def harnesses(tier):
         hs.append(Harness("fit[n=%d,iters=2,direction=f,%ssave and load_model]" % (nn, "scaler with per-feature parameters," if sc else ""), dict(n=nn, iters=2, direction="f", proba=0, scaler=sc, roundtrip=True, shuffle=False), sym, real="fit", functions=funcs + [M.Model.save, M.load_model],
                           bounds=dict(N=nn, max_iter=2), stubs=stubs + ["pickle -> copy.deepcopy (same __reduce_ex__/__getstate__/__setstate__ protocol) into an in-memory file; pandas.read_csv on a pickle -> UnicodeDecodeError"],
                           assumptions=["0 < train_fdr <= 1", "the byte-level pickle codec is trusted (exercised for real in the replay)"], sample_rate=0.6))
+    # (N = 4 with three targets: with N = 3 the model's scores and the direction feature accept the same PSMs
+    #  on every path that gets as far as the second fit)
+    hs.append(Harness("fit[n=4,iters=1,direction=f,labels TTTD,fitted twice]", dict(n=4, iters=1, direction="f", proba=0, refit=True, shuffle=False, labels=[1, 1, 1, 0]), sym, real="fit", functions=funcs,
+                      bounds=dict(N=4, max_iter=1, fits=2), stubs=stubs, assumptions=["0 < train_fdr <= 1", "the second fit starts from the trained model's own scores", "labels fixed to three targets and a decoy"], sample_rate=0.3))
+    if tier == "thorough":
+        hs.append(Harness("fit[n=4,iters=1,direction=f,fitted twice]", dict(n=4, iters=1, direction="f", proba=0, refit=True, shuffle=False), sym, real="fit", functions=funcs,
+                          bounds=dict(N=4, max_iter=1, fits=2), stubs=stubs, assumptions=["0 < train_fdr <= 1"], sample_rate=0.1))
     if tier == "quick":
         # three targets and a decoy: the smallest table on which two label sets can accept the same NUMBER of
         # targets but different targets (with N = 3 every q-value is 1/2 or 1)
@@ -468,6 +479,8 @@ def real_fit(cfg, inp):
         model = Model(RecProba(7, cfg["proba"]) if cfg.get("proba") else (PickRec(7) if cfg.get("roundtrip") else Rec(7)), scaler=scaler, train_fdr=fdr, max_iter=cfg["iters"], direction=cfg.get("direction"), shuffle=bool(inp["shuffle"]),
                       rng=Scripted(inp.get("perms") or []), override=True)
         model.fit(psms)
+        if cfg.get("refit"):
+            model.fit(psms)
         df2 = df[["f", "spec", "Label", "pep", "rowid"]]
         psms2 = LinearPsmDataset(df2, target_column="Label", spectrum_columns="spec", peptide_column="pep", feature_columns=["f", "rowid"], copy_data=True)
         pred = model.predict(psms2)
